@@ -430,7 +430,6 @@ package argmapper
 //@ ghost comb(f *Func, opts []Arg, i int) Arg = ite(i < len(f.callOpts), f.callOpts[i], opts[i - len(f.callOpts)])
 //@ ghost combLen(f *Func, opts []Arg) int = len(f.callOpts) + len(opts)
 //@ func (*Func).argBuilder
-//@   split-paths
 //@   ensures  [nil-option-is-an-error] forall(i, int, imp(0 <= i && i < old(combLen(f, opts)) && old(comb(f, opts, i)) == nil, result0 == nil && result1 != nil))
 //@   ensures  [builder] imp(result0 != nil, wfB(result0) && fresh(result0) && !result0.redefining)
 //@   ensures  [no-error-means-builder] imp(result1 == nil, result0 != nil)
@@ -447,12 +446,7 @@ package argmapper
 //@ ghost hashV(n string, t reflect.Type, s string) any = box(sprintf3("%s/%s/%s", box(n), box(typeStr(t)), box(s)))
 //@ ghost hashA(t reflect.Type, s string) any = box(sprintf2("arg: %s/%s", box(typeStr(t)), box(s)))
 //@ ghost hashO(t reflect.Type, s string) any = box(sprintf2("out: %s/%s", box(typeStr(t)), box(s)))
-//@ assume-note A-hash: the three Sprintf formats used for hash codes are injective in their operands and never collide with one another (names and subtypes contain no '/', types are distinctly named: typeStr is injective) — the "distinctly named types" clause of C06
-//@ axiom a-hash-typestr: forall(t, reflect.Type, u, reflect.Type, imp(typeStr(t) == typeStr(u), t == u))
-//@ axiom a-hash-value: forall(n, string, t, string, s, string, m, string, u, string, r, string, imp(sprintf3("%s/%s/%s", box(n), box(t), box(s)) == sprintf3("%s/%s/%s", box(m), box(u), box(r)), n == m && t == u && s == r))
-//@ axiom a-hash-arg: forall(t, string, s, string, u, string, r, string, imp(sprintf2("arg: %s/%s", box(t), box(s)) == sprintf2("arg: %s/%s", box(u), box(r)), t == u && s == r))
-//@ axiom a-hash-out: forall(t, string, s, string, u, string, r, string, imp(sprintf2("out: %s/%s", box(t), box(s)) == sprintf2("out: %s/%s", box(u), box(r)), t == u && s == r))
-//@ axiom a-hash-disjoint: forall(n, string, t, string, s, string, u, string, r, string, sprintf3("%s/%s/%s", box(n), box(t), box(s)) != sprintf2("arg: %s/%s", box(u), box(r)) && sprintf3("%s/%s/%s", box(n), box(t), box(s)) != sprintf2("out: %s/%s", box(u), box(r)) && sprintf2("arg: %s/%s", box(t), box(s)) != sprintf2("out: %s/%s", box(u), box(r)))
+//@ assume-note A-hash: the three Sprintf formats used for hash codes are injective in their operands and never collide with one another (names and subtypes contain no '/', types are distinctly named: typeStr is injective) — the "distinctly named types" clause of C06; stated as the decoding axioms dec-value / dec-arg / dec-out below (a label can be read back from its hash code)
 // dynamic dispatch of Hashcode: linked to the verified method bodies below
 //@ axiom hcm-value: forall(v, *valueVertex, hcm(box(v)) == hashV(v.Name, v.Type, v.Subtype))
 //@ axiom hcm-arg: forall(v, *typedArgVertex, hcm(box(v)) == hashA(v.Type, v.Subtype))
@@ -671,3 +665,94 @@ package argmapper
 //@   requires !planning && target != nil
 //@   ensures  [error-means-nil-value] imp(result1 != nil, result0 == nil)
 //@   assigns  *
+
+// ---------------------------------------------------------------- the call graph: labels, the rule table (C01 C03 C13)
+// Vertex labels are decoded from hash codes (consistent with A-hash: the
+// formats are injective and mutually disjoint; a func vertex hashes to its
+// reflect.Type, the root to its own pointer).
+//@ uf hkind(h any) int
+//@ uf hname(h any) string
+//@ uf htype(h any) reflect.Type
+//@ uf hsub(h any) string
+//@ axiom dec-value: forall(n, string, t, reflect.Type, s, string, trig(hashV(n, t, s), hkind(hashV(n, t, s)) == 1 && hname(hashV(n, t, s)) == n && htype(hashV(n, t, s)) == t && hsub(hashV(n, t, s)) == s))
+//@ axiom dec-arg: forall(t, reflect.Type, s, string, trig(hashA(t, s), hkind(hashA(t, s)) == 2 && htype(hashA(t, s)) == t && hsub(hashA(t, s)) == s))
+//@ axiom dec-out: forall(t, reflect.Type, s, string, trig(hashO(t, s), hkind(hashO(t, s)) == 3 && htype(hashO(t, s)) == t && hsub(hashO(t, s)) == s))
+//@ axiom dec-func: forall(t, reflect.Type, trig(box(t), hkind(box(t)) == 4))
+//@ axiom dec-root: forall(r, *rootVertex, trig(box(r), hkind(box(r)) == 5))
+//@ axiom dec-kinds: forall(h, any, trig(hkind(h), 0 <= hkind(h) && hkind(h) <= 5))
+
+// The matching table of the property (C01): b may supply a.
+//@ ghost compat(a any, b any) bool = imp(hkind(a) == 1 && hkind(b) == 1, hname(a) == hname(b)) && (htype(a) == htype(b) || (kindof(htype(a)) == 20 && implements(htype(b), htype(a)))) && imp(htype(a) == htype(b), hsub(a) == hsub(b) || hsub(a) == "" || hsub(b) == "")
+//@ ghost labelled(h any) bool = hkind(h) == 1 || hkind(h) == 2 || hkind(h) == 3
+
+// The rule table: every edge a -> b ("a is obtained from b") of a call graph
+// is an instance of one rule and carries that rule's weight (C03).
+//@ ghost ruleE(a any, b any, w int) bool = ite(hkind(a) == 4, (hkind(b) == 1 && w == 1) || (hkind(b) == 2 && w == 5) || (hkind(b) == 5 && w == 1), ite(hkind(b) == 4, (hkind(a) == 1 && w == 1) || (hkind(a) == 3 && w == 5), ite(hkind(b) == 5, labelled(a) && w == 1, labelled(a) && labelled(b) && compat(a, b) && ruleW(a, b, w))))
+//@ ghost ruleW(a any, b any, w int) bool = ite(hkind(a) == 2 && hkind(b) == 3 && hsub(a) != hsub(b), w == 20, w == 5) && (hkind(a) == 1 && hkind(b) == 3 || hkind(a) == 2 && hkind(b) == 1 || hkind(a) == 2 && hkind(b) == 3 || hkind(a) == 3 && hkind(b) == 3 && a != b || hkind(a) == 1 && hkind(b) == 1 && hsub(a) == "" && hsub(b) != "")
+//@ pred ruleInv(g *graph.Graph) bool = forall(a, any, b, any, imp(edge(g, a, b), ruleE(a, b, wgt(g, a, b))))
+
+// Well-formed representatives.
+//@ pred funcOK(f *Func) bool = f != nil && valid(f.fn) && f.input != nil && f.output != nil && vsWF(f.input) && vsWF(f.output) && vsSound(f.input) && vsSound(f.output)
+//@ ghost vsSound(vs *ValueSet) bool = forall(j, int, imp(0 <= j && j < len(vs.values), vs.values[j].Type != nil))
+//@     && forall(m, string, imp(has(vs.namedValues, m), vs.namedValues[m] != nil && vs.namedValues[m].Type != nil && vs.namedValues[m].Name == m && m != ""))
+//@     && forall(t, reflect.Type, imp(has(vs.typedValues, t), vs.typedValues[t] != nil && vs.typedValues[t].Type == t && t != nil && vs.typedValues[t].Name == ""))
+//@ ghost repOK(x any) bool = (typeis(x, *valueVertex) && as(x, *valueVertex) != nil && as(x, *valueVertex).Type != nil) || (typeis(x, *typedArgVertex) && as(x, *typedArgVertex) != nil && as(x, *typedArgVertex).Type != nil) || (typeis(x, *typedOutputVertex) && as(x, *typedOutputVertex) != nil && as(x, *typedOutputVertex).Type != nil) || (typeis(x, *funcVertex) && as(x, *funcVertex) != nil && funcOK(as(x, *funcVertex).Func)) || (typeis(x, *rootVertex) && as(x, *rootVertex) != nil)
+//@ pred gOK(g *graph.Graph) bool = forall(k, any, imp(has(g.hash, k), repOK(g.hash[k]) && hc(g.hash[k]) == k))
+
+//@ func (*funcVertex).Hashcode
+//@   requires v != nil && v.Func != nil && valid(v.Func.fn)
+//@   ensures  result == box(rtypeof(v.Func.fn))
+//@   assigns  nothing
+//@   modifies nothing
+//@ axiom hcm-func: forall(v, *funcVertex, hcm(box(v)) == box(rtypeof(v.Func.fn)))
+//@ immutable funcVertex.Func, Func.fn, Func.input, Func.output
+
+//@ ghostvar reqs set[any]
+//@ func (*Func).graph
+//@   requires g != nil && wf0(g) && gOK(g) && funcOK(f) && has(g.hash, hc(root)) && hkind(hc(root)) == 5
+//@   ensures  [graph-kept-well-formed] wf(g) && gOK(g) && sameRefs(g)
+//@   ensures  [vertex] typeis(result, *funcVertex) && as(result, *funcVertex) != nil && as(result, *funcVertex).Func == f && hc(result) == box(rtypeof(f.fn)) && has(g.hash, hc(result))
+//@   ensures  [foot] footGrows(g)
+//@   ensures  [vertices-kept] forall(k, any, imp(old(has(g.hash, k)), has(g.hash, k) && g.hash[k] == old(g.hash[k])))
+//@   ensures  [rule-instances-only] imp(old(ruleInv(g)), ruleInv(g))
+//@   ensures  [edges-kept] forall(a, any, b, any, imp(old(edge(g, a, b)), edge(g, a, b)))
+//@   ensures  [requirements-linked] forall(b, any, imp(in(b, reqs), edge(g, hc(result), b)))
+//@   ensures  [requirements-in-set] forall(j, int, imp(0 <= j && j < len(f.input.values), in(vhash(f.input.values[j]), reqs)))
+//@   assigns  graph.Graph, Outer, Inner, HashM, valueVertex, typedArgVertex, typedOutputVertex, funcVertex, []interface{}, reqs
+//@   modifies g, g.adjacencyOut, g.adjacencyIn, g.hash, forall(m, Inner, infoot(g, m))
+//@   tail-split
+//@   after "vertex := g.Add(&funcVertex{" set reqs = emptyset(any)
+//@   after "g.AddEdge(vertex, g.Add(&valueVertex{" set reqs = add(reqs, vhash(val))
+//@   after "g.AddEdgeWeighted(vertex, g.Add(&typedArgVertex{" set reqs = add(reqs, vhash(val))
+//@   after "g.AddEdge(vertex, g.Add(&valueVertex{" assert [named-requirement-linked] edge(g, hc(vertex), vhash(val))
+//@   after "g.AddEdgeWeighted(vertex, g.Add(&typedArgVertex{" assert [typed-requirement-linked] edge(g, hc(vertex), vhash(val))
+//@   loop 1 invariant wf(g) && sameRefs(g)
+//@   loop 1 invariant gOK(g)
+//@   loop 1 invariant funcOK(f)
+//@   loop 1 invariant footGrows(g)
+//@   loop 1 invariant has(g.hash, hc(vertex)) && hc(vertex) == box(rtypeof(f.fn)) && has(g.hash, hc(root)) && typeis(vertex, *funcVertex) && as(vertex, *funcVertex) != nil && as(vertex, *funcVertex).Func == f
+//@   loop 1 invariant forall(k, any, imp(old(has(g.hash, k)), has(g.hash, k) && g.hash[k] == old(g.hash[k])))
+//@   loop 1 invariant imp(old(ruleInv(g)), ruleInv(g))
+//@   loop 1 invariant forall(a, any, b, any, imp(old(edge(g, a, b)), edge(g, a, b)))
+//@   loop 1 invariant [linked-set] forall(b, any, imp(in(b, reqs), edge(g, hc(vertex), b)))
+//@   loop 1 invariant [requirements-in-set] forall(j, int, imp(0 <= j && j < idx1, in(vhash(f.input.values[j]), reqs)))
+//@   loop 2 invariant wf(g) && sameRefs(g)
+//@   loop 2 invariant gOK(g)
+//@   loop 2 invariant funcOK(as(vertex, *funcVertex).Func)
+//@   loop 2 invariant footGrows(g)
+//@   loop 2 invariant has(g.hash, hc(vertex)) && hc(vertex) == box(rtypeof(as(vertex, *funcVertex).Func.fn)) && has(g.hash, hc(root)) && typeis(vertex, *funcVertex) && as(vertex, *funcVertex) != nil && as(vertex, *funcVertex).Func != nil
+//@   loop 2 invariant forall(k, any, imp(old(has(g.hash, k)), has(g.hash, k) && g.hash[k] == old(g.hash[k])))
+//@   loop 2 invariant imp(old(ruleInv(g)), ruleInv(g))
+//@   loop 2 invariant forall(a, any, b, any, imp(old(edge(g, a, b)), edge(g, a, b)))
+//@   loop 2 invariant [linked-set] forall(b, any, imp(in(b, reqs), edge(g, hc(vertex), b)))
+//@   loop 2 invariant [requirements-in-set] forall(j, int, imp(0 <= j && j < len(as(vertex, *funcVertex).Func.input.values), in(vhash(as(vertex, *funcVertex).Func.input.values[j]), reqs)))
+//@   loop 3 invariant wf(g) && sameRefs(g)
+//@   loop 3 invariant gOK(g)
+//@   loop 3 invariant funcOK(as(vertex, *funcVertex).Func)
+//@   loop 3 invariant footGrows(g)
+//@   loop 3 invariant has(g.hash, hc(vertex)) && hc(vertex) == box(rtypeof(as(vertex, *funcVertex).Func.fn)) && has(g.hash, hc(root)) && typeis(vertex, *funcVertex) && as(vertex, *funcVertex) != nil && as(vertex, *funcVertex).Func != nil
+//@   loop 3 invariant forall(k, any, imp(old(has(g.hash, k)), has(g.hash, k) && g.hash[k] == old(g.hash[k])))
+//@   loop 3 invariant imp(old(ruleInv(g)), ruleInv(g))
+//@   loop 3 invariant forall(a, any, b, any, imp(old(edge(g, a, b)), edge(g, a, b)))
+//@   loop 3 invariant [linked-set] forall(b, any, imp(in(b, reqs), edge(g, hc(vertex), b)))
+//@   loop 3 invariant [requirements-in-set] forall(j, int, imp(0 <= j && j < len(as(vertex, *funcVertex).Func.input.values), in(vhash(as(vertex, *funcVertex).Func.input.values[j]), reqs)))
